@@ -40,6 +40,13 @@ def generate(seed, tier):
     for i in range(NDIRECT[tier]):
         cs = K.harness_seed(seed, ID, i)
         cases.append(CF.gen_direct(cs, tier, allow_alg=True, rational_share=0.65))
+    # pairs of tuples analysed one after the other IN ONE PROCESS: the same exponential bases met in a different order (the relation
+    # vectors are positional), with an asymmetric relation
+    def g_(name, base):
+        return {"name": name, "wrap": "none", "specials": [], "terms": [[["1", "0"], 0, [base, "0"], ["plain"]]]}
+    for j, (b1, b2) in enumerate([("2", "4"), ("3", "27"), ("1/2", "1/8"), ("4", "-2")]):
+        cases.append({"id": f"pair-{b1}-{b2}", "kind": "direct", "d": 0, "goals": [g_("x", b2), g_("y", b1)],
+                      "pre_goals": [g_("x", b1), g_("y", b2)], "features": ["fixed", "field:Q", "k=2", "same-bases-other-order-in-one-process"]})
     cli = CF.gen_cli(lambda i: K.harness_seed(seed, ID, i), NCLI[tier], tier)
     for c in cases:      # per-case watchdog: sympy's (EX-domain) groebner inside Polar may run for minutes
         if c["d"] != 0:
@@ -57,6 +64,16 @@ def worker_init(tier):
 def run_case(case, tier):
     if case["kind"] == "cli":
         return run_cli_case(case, tier)
+    if case.get("pre_goals"):
+        pre = {k: v for k, v in case.items() if k != "pre_goals"}
+        pre.update(goals=case["pre_goals"], id=case["id"] + "-first")
+        r0 = run_direct_case(pre, tier)
+        r = run_direct_case({k: v for k, v in case.items() if k != "pre_goals"}, tier)
+        r["violations"] = list(r0.get("violations", [])) + list(r.get("violations", []))
+        r["comparisons"] = r.get("comparisons", 0) + r0.get("comparisons", 0)
+        if r["violations"]:
+            r["verdict"] = "violated"
+        return r
     return run_direct_case(case, tier)
 
 
